@@ -75,6 +75,29 @@ CHECKS_K1 = {
                 "the library-private NotSet sentinel of with_latest_from. reactivex.amb (n-ary fold of amb_) is not separately contracted.",
         "technique": "K1 handler refinement per source index at arity 2 and 3, SMT",
     },
+    "C09": {
+        "text": "Guard contracts on the AST of every module of reactivex/operators and reactivex/observable (about 200 handler / action "
+                "entry points): a function of a module MAY LET A USER EXCEPTION ESCAPE iff, outside every `try` whose handlers catch "
+                "Exception, it calls a user callback (a called parameter of the operator factory chain, an alias of one such as "
+                "`comparer_ = comparer or default_comparer`, one of its own parameters, or a `self.<attr>` bound from a constructor "
+                "parameter - so helpers that are handed the callback are followed) or another function of the module that may (least "
+                "fixpoint over the module's call graph, methods by name). Obligations: (1) no entry point - a function or lambda handed "
+                "to .subscribe(...), .schedule*(...) or an observer constructor, i.e. code run by whoever emits the notification or by "
+                "the scheduler - may let a user exception escape; (2) every guard around a user-callback call delivers the exception "
+                "(its catch-all handler calls <x>.on_error / fail / throw or re-raises). The K1 contracts (C05, C06, C11-C13) "
+                "additionally prove, path-sensitively, for every contracted operator that the raising branch of each callback ends in "
+                "exactly one on_error with that exception and nothing after it.",
+        "note": "Trusted: the classification above (A-static: names mean what the module source says; callbacks reached through data "
+                "structures other than `self.<attr>` or handed to code outside the module are not followed); path-insensitive (a call "
+                "guarded on one path only is reported, never missed). Admitted without a guard, as the property's scope allows: calls "
+                "made by the subscribe function itself (Observable.subscribe's fail() clause, proved under C01, routes them to "
+                "on_error), calls made at dispose time, callbacks handed on to another operator (that operator's own obligation). 'The "
+                "pipeline stops and the grammar holds afterwards' is C01 applied to the delivered on_error; the resource-release half "
+                "is C02 and is NOT claimed. Refuted obligations are replayed by guardrun.py (fault injection at the k-th call of the "
+                "callback over a hot, non-catching source; table of ~48 operator/callback pairs) - bounded, replay and thorough-tier "
+                "cross-check only.",
+        "technique": "guard (exception-escape) contracts decided modularly on the AST with a least-fixpoint over each module's call graph; K1 for the path-sensitive part",
+    },
     "C42": {
         "text": "Function and closure contracts on the real CatchScheduler under a class invariant I (handler fixed; a cached recursive "
                 "wrapper is a CatchScheduler with the same handler wrapping `_recursive_original`), each proved from an ARBITRARY object "
